@@ -49,13 +49,15 @@ def parseOptInt : Sexp → Option (Option Int)
 def showTri : Tri → String
   | .t => "t" | .f => "f" | .u => "u"
 
-def handle (op : String) (arg : Sexp) : String :=
+partial def handle (op : String) (arg : Sexp) : String :=
   match op, arg with
   | "evalrows", .list [e, .list rows, impl] =>
     match parseExpr e, rows.mapM parseRow with
     | some e, some rows => judgeRows (rows.map (fun r => eval e r)) (rows.map (fun _ => true)) impl
     | none, _ => "unsupported"
     | _, _ => "bad-op"
+  | "evalrows-inlist-constant-case", a => handle "evalrows" a
+  | "evalsel-inlist-constant-case", a => handle "evalsel" a
   | "evalsel", .list [e, .list rows, .list mask, impl] =>
     match parseExpr e, rows.mapM parseRow, mask.mapM Sexp.asBool? with
     | some e, some rows, some mask => judgeRows (rows.map (fun r => eval e r)) mask impl
